@@ -248,6 +248,18 @@ def stepSkip : List String → Option String
     let k ← parseKind kind
     if !rest.isEmpty || rpf == 0 then none
     else some (runRel wsp [⟨k, k.stdName, List.range nIdx⟩] (List.range (nIdx + 1)) c segs (minMarks rpf minRows) rgs)
+  | "bloomv" :: split :: mode :: nvert :: minRows :: rgs :: nIdx :: blocks :: cond => do
+    -- detached layout, one row per block, every block has a filter (the first `nvert` in a
+    -- vertical group): answered as the attached layout (`bfMayBeDetached`, `detached_bloom_sound`)
+    let minRows ← minRows.toNat?
+    let rgs ← parseRanges rgs
+    let nIdx ← nIdx.toNat?
+    let nvert ← nvert.toNat?
+    let segs ← (blocks.splitOn "|").mapM parseSeg
+    let (c, rest) ← parseBCond cond
+    let wsp ← (match split with | "c" => some contentSplit | "e" => some noSplit | _ => none)
+    if !rest.isEmpty || !(mode == "L" || mode == "R") || nvert > segs.length || segs.any (·.length != 1) then none
+    else some (runRel wsp [⟨.bloom, IdxKind.bloom.stdName, List.range nIdx⟩] (List.range (nIdx + 1)) c segs (minMarks 1 minRows) rgs)
   | "bloomx" :: split :: rpf :: minRows :: rgs :: ncols :: rel :: segs :: cond => do
     -- any index relation over a record with the string columns 0..ncols-1
     let rpf ← rpf.toNat?
